@@ -345,18 +345,32 @@ class TokenizerState:
         self.continued = False
         self.indents = [0]
         self.alt_indents = [0]  # the same levels measured with a tab counted as one column
-        self._last_index: tuple[int, str, int] = (0, "", -1)
+        self._can_close: tuple[int, str, list[bool]] = (0, "", [])
         self.last_line = ""
         self.line = ""
         self.pos = 0
         self.max = 0
         self.end_progs: list[EndProg] = []
 
-    def last_index(self, char: str) -> int:
-        """Where `char` occurs last in the current line (found once per line, not once per token)."""
-        if self._last_index[:2] != (self.lnum, char):
-            self._last_index = (self.lnum, char, self.line.rfind(char) if char else self.max)
-        return self._last_index[2]
+    def can_close(self, quote: str) -> bool:
+        """Can the end pattern of a plain string with this quote match from the current position of the current line?
+
+        The answer for every position of the line is worked out once, from right to left: while a quote that is not
+        closed on its line is pending, the question comes up again before every token of the rest of the line, and
+        running the pattern each time rescans that rest."""
+        if self._can_close[:2] != (self.lnum, quote):
+            line, n, q = self.line, len(self.line), quote[0]
+            table = [False] * (n + 3)
+            for i in range(n - 1, -1, -1):
+                c = line[i]
+                if c == q and (len(quote) == 1 or line.startswith(quote, i)):
+                    table[i] = True
+                elif c == "\\":
+                    table[i] = i + 1 < n and line[i + 1] != "\n" and table[i + 2]
+                else:
+                    table[i] = table[i + 1]
+            self._can_close = (self.lnum, quote, table)
+        return self._can_close[2][self.pos]
 
     def move_next_line(self, readline: Callable[[], str]) -> None:
         self.last_line = self.line
@@ -727,7 +741,7 @@ def handle_end_progs(state: TokenizerState) -> Iterator[TokenInfo]:
         # else:
         #     raise TokenError(f"Expected {endprog.quote} inside f-string", (state.lnum, state.pos))
 
-    elif state.last_index(state.end_progs[-1].quote[:1]) >= state.pos and (
+    elif state.can_close(state.end_progs[-1].quote) and (
         endmatch := state.match(state.end_progs[-1].pattern)
     ):  # all on one line
         end = endmatch.end(0)
